@@ -47,25 +47,41 @@ def audit(verbose=True):
     return bad
 
 
+def claimed_properties():
+    m = json.load(open(os.path.join(core.VERIF, "MANIFEST.json")))
+    return [c["property_id"] for c in m.get("checks", [])]
+
+
 def setup():
+    """Build what the registered checks need: regenerate their Gen tables, full .vo build of their
+    targets (files of checks that are not registered yet are not built), warm the Go build cache."""
     t0 = time.time()
-    for pid in sorted(os.listdir(os.path.join(core.VERIF, "checks"))):
-        if re.fullmatch(r"c\d+\.py", pid):
-            mod = importlib.import_module("checks." + pid[:-3])
-            if hasattr(mod, "regen"):
-                ctx = core.Ctx(pid[:-3].upper(), "quick", 0)
-                try:
-                    mod.regen(ctx)
-                finally:
-                    ctx.cleanup()
-    ok, log = core.coq_make()
+    targets = []
+    for prop in claimed_properties():
+        mod = importlib.import_module("checks." + prop.lower())
+        if hasattr(mod, "regen"):
+            ctx = core.Ctx(prop, "quick", 0)
+            try:
+                mod.regen(ctx)
+            finally:
+                ctx.cleanup()
+        for t in mod.COQ_TARGETS:
+            if t not in targets:
+                targets.append(t)
+    ok, log = core.coq_make(targets)
     print(log[-3000:])
     if not ok:
         print("setup: coq build FAILED")
         return 1
     ctx = core.Ctx("SETUP", "quick", 0)
     try:
-        core.build_harness(ctx)
+        for name in sorted(os.listdir(os.path.join(core.VERIF, "harness"))):
+            if name == "inject" or not os.path.isdir(os.path.join(core.VERIF, "harness", name)):
+                continue
+            try:
+                core.build_harness(ctx, name)
+            except core.HarnessBuildError as e:
+                print("setup: harness %s does not build (not fatal here; its check will report it):\n%s" % (name, str(e)[-800:]))
     finally:
         ctx.cleanup()
     bad = audit()
